@@ -37,8 +37,9 @@ HERE = Path(__file__).resolve().parent
 
 COMP_CODE = {"Main": 0, "Frontend": 1, "GstThread": 2, "Core": 3, "Backend": 4, "Mixer": 5, "Audio": 6, "Unknown": 7}
 RANK = {"Main": 5, "Frontend": 4, "GstThread": 4, "Core": 3, "Backend": 2, "Mixer": 2, "Audio": 1, "Unknown": None}
-OK, DECL, OTHER, DIES, INTR = 0, 1, 2, 3, 4
-OUTCOME_NAME = {0: "ok", 1: "declared-error", 2: "other-error", 3: "dies-in-on_start", 4: "interrupt"}
+OK, DECL, OTHER, DIES, INTR, LATE = 0, 1, 2, 3, 4, 5
+OUTCOME_NAME = {0: "ok", 1: "declared-error", 2: "other-error", 3: "dies-in-on_start", 4: "interrupt",
+                5: "interrupt-after-start"}
 LOOP_NAME = {0: "quit", 1: "keyboard-interrupt", 2: "exception"}
 EXPECTED_DYNAMIC = [("Frontend", "Core"), ("Core", "Backend"), ("Core", "Mixer"), ("Core", "Audio"),
                     ("Backend", "Audio"), ("Mixer", "Audio"), ("GstThread", "Core"), ("Main", "Frontend")]
@@ -268,11 +269,12 @@ def waitfor_stage(chk):
 def canon(case):
     """Outcomes after the first interrupt are never consulted: normalise them to OK."""
     c = dict(case)
-    cut = (c["hm"] and c["om"] == INTR) or c["oa"] in (DECL, OTHER, INTR) or (c["oa"] == DIES and c["early"])
+    cut = (c["hm"] and c["om"] in (INTR, LATE)) or c["oa"] in (DECL, OTHER, INTR, LATE) \
+        or (c["oa"] == DIES and c["early"])
     obs = []
     for o in c["obs"]:
         obs.append(OK if cut else o)
-        cut = cut or o == INTR
+        cut = cut or o in (INTR, LATE)
     c["obs"] = obs
     if cut:
         c["oc"] = OK
@@ -280,7 +282,7 @@ def canon(case):
     ofs = []
     for o in c["ofs"]:
         ofs.append(OK if cut else o)
-        cut = cut or o == INTR
+        cut = cut or o in (INTR, LATE)
     c["ofs"] = ofs
     if not c["hm"]:
         c["om"] = OK
@@ -318,6 +320,11 @@ def corpus_cases():
         mk_case(obs=[OK], ofs=[OK, INTR, OK]),
         mk_case(obs=[], ofs=[], restore=0),
         mk_case(obs=[DIES, DIES], ofs=[DIES, DIES], restore=1, ol=1),
+        mk_case(obs=[OK], oc=LATE, ofs=[OK]),
+        mk_case(om=LATE, obs=[OK], ofs=[OK]),
+        mk_case(oa=LATE, obs=[OK], ofs=[OK]),
+        mk_case(obs=[OK, LATE, OK], ofs=[OK]),
+        mk_case(obs=[OK], ofs=[OK, LATE, OK]),
     ]
     d = vlib.VERIF / "corpus" / "C18"
     if d.is_dir():
@@ -333,8 +340,8 @@ def corpus_cases():
 
 def random_case(rng):
     nb, nf = rng.randint(0, 3), rng.randint(0, 3)
-    w = [(OK, 5), (DECL, 1.2), (OTHER, 1.2), (DIES, 1.2), (INTR, 0.5)]
-    wa = [(OK, 14), (DECL, 1), (OTHER, 1), (DIES, 1.5), (INTR, 0.5)]
+    w = [(OK, 5), (DECL, 1.2), (OTHER, 1.2), (DIES, 1.2), (INTR, 0.4), (LATE, 0.4)]
+    wa = [(OK, 14), (DECL, 1), (OTHER, 1), (DIES, 1.5), (INTR, 0.5), (LATE, 1)]
     return mk_case(hm=int(rng.random() < 0.8), om=rng.weighted(w), oa=rng.weighted(wa), early=rng.randint(0, 1),
                    obs=[rng.weighted(w) for _ in range(nb)], oc=rng.weighted(wa),
                    ofs=[rng.weighted(w) for _ in range(nf)], ol=rng.randint(0, 2), restore=int(rng.random() < 0.7))
@@ -347,9 +354,9 @@ def exhaustive_cases():
     for nb in range(3):
         for nf in range(3):
             for hm in (0, 1):
-                for om in (range(5) if hm else [OK]):
-                    for obs in itertools.product(range(5), repeat=nb):
-                        for ofs in itertools.product(range(5), repeat=nf):
+                for om in (range(6) if hm else [OK]):
+                    for obs in itertools.product(range(6), repeat=nb):
+                        for ofs in itertools.product(range(6), repeat=nf):
                             for ol in range(3):
                                 for restore in (0, 1):
                                     out.append(mk_case(hm=hm, om=om, obs=obs, ofs=ofs, ol=ol, restore=restore))
@@ -372,7 +379,7 @@ CASES_FOOTER = (
     "Definition corr (c : oracle * obs) : bool := obs_eqb (model_obs (fst c)) (snd c).\n"
     "Definition m_order (c : oracle * obs) : bool := stop_order_ok_b (map cls_of_code (ob_stops (snd c))).\n"
     "Definition m_saves (c : oracle * obs) : bool :=\n"
-    "  (ob_saves (snd c) =? (if o_restore (fst c) && core_started (fst c) then 1 else 0)).\n"
+    "  (ob_saves (snd c) =? (if o_restore (fst c) && core_running (fst c) then 1 else 0)).\n"
     "Definition m_left (c : oracle * obs) : bool := (ob_left (snd c) =? 0).\n"
     "Definition m_status (c : oracle * obs) : bool := (ob_status (snd c) =? 0) || (ob_status (snd c) =? 1).\n"
     "Definition m_all (c : oracle * obs) : bool := monitor_ok_b (fst c) (snd c).\n"
@@ -454,7 +461,8 @@ def evaluate_shutdown(chk, cases, results, label):
                 flagged.add(i)
                 what = {
                     "stop_order": "actors did not stop in the order frontends, core, backends, audio, mixer",
-                    "state_saved": "state was not saved exactly once iff restore_state is on and the core started",
+                    "state_saved": "state was not saved exactly once iff restore_state is on and a core actor was "
+                                   "running at shutdown",
                     "registry_empty": "actors were still registered when RootCommand.run returned",
                     "exit_status": "RootCommand.run did not return an exit status in {0, 1}",
                 }[name]
@@ -490,7 +498,8 @@ def shutdown_stage(chk):
         chk.count(1, nontrivial_key=case_key(c) if (nfail >= 1 and r.get("stops")) else None)
         chk.dist(f"failures={min(nfail, 4)}{'+' if nfail >= 4 else ''}")
         chk.dist(f"loop={LOOP_NAME[c['ol']]}")
-        if INTR in c["obs"] + c["ofs"] or c["om"] == INTR or c["oa"] == INTR or c["oc"] == INTR:
+        allo = c["obs"] + c["ofs"] + [c["om"], c["oa"], c["oc"]]
+        if INTR in allo or LATE in allo:
             chk.dist("interrupt_during_startup")
         if i in (0, 2):
             chk.sample({"shutdown_case": describe(c), "observed": {k: r.get(k) for k in
